@@ -3,8 +3,8 @@
    dialect.py, compared with /repo by C13's correspondence) gives exactly Fmt.eff_id, the clause the format
    model uses.  Option part: over Dialect.merge's option loop as translated from /repo on this run (K2). *)
 From Coq Require Import List String ZArith Bool.
-From Verif Require Import Regex PyK Fmt DialectMerge FmtDialects.
-From VerifGen Require Import K2 K13.
+From Verif Require Import Regex PyK Fmt DialectMerge FmtDialects FmtDialectSource.
+From VerifGen Require Import K2 K13 K41.
 Import ListNotations.
 Open Scope string_scope.
 
@@ -22,6 +22,13 @@ Theorem C04_merge_keeps_format_omit_none : forall a b n,
             /\ option_of r "omit_none" = option_of a "omit_none".
 Proof. exact merge_keeps_format_omit_none. Qed.
 Print Assumptions C04_merge_keeps_format_omit_none.
+
+(* the model's table of the three format dialects is what mashumaro/mixins/{orjson,msgpack,toml}.py declare
+   (strategies per native type and direction, omit_none), as read from the source on this run (K41) *)
+Theorem C04_format_dialect_tables_match_source : forall F k,
+  source_entry F k = fmt_entry F k /\ source_omit F = fmt_omit F.
+Proof. exact format_dialect_tables_match_source. Qed.
+Print Assumptions C04_format_dialect_tables_match_source.
 
 (* non-vacuity: TOMLDialect.merge(X) with X silent on omit_none still omits None; the msgpack entry for
    bytearray merged with a caller's {"serialize": f} keeps the format's deserialize = bytearray *)
